@@ -1161,7 +1161,7 @@ def proof_step_retry(ctx, attempts=3):
     compile error or a forbidden axiom recurs and is reported after the last attempt"""
     for k in range(attempts):
         marks = (len(ctx.violations), len(ctx.obligations), len(ctx.assumptions_txt), len(ctx.checker_cmds), len(ctx.notes))
-        if core.proof_step(ctx, "C09", core.ALLOW_INTERVAL):
+        if core.proof_step(ctx, "C09", core.ALLOW_INTERVAL, extra_targets=["theories/C09/DeepProperties.vo"]):
             return True
         new = ctx.violations[marks[0]:]
         infra = len(new) == 1 and "outside the allow-list" in new[0]["what"] and "'<compile>'" in new[0]["what"]
@@ -1175,6 +1175,34 @@ def proof_step_retry(ctx, attempts=3):
         ctx.count("retries:print-assumptions-process-did-not-complete")
         time.sleep(5)
     return False
+
+
+def deep_step_start(ctx):
+    """Print Assumptions over the theorems of C09/DeepProperties.v (proof-deepening round; built by the proof step as an
+    extra target), run in a thread next to the case evaluation: -> (theorem names, future)"""
+    from concurrent.futures import ThreadPoolExecutor
+    path = os.path.join(core.COQDIR, "theories", "C09", "DeepProperties.v")
+    thms = core.theorems_in(path)
+    ex = ThreadPoolExecutor(1)
+    fut = ex.submit(core.assumptions, os.path.join(ctx.work, "deep"), "C09.DeepProperties", thms, core.ALLOW_INTERVAL)
+    ex.shutdown(wait=False)
+    return thms, fut
+
+
+def deep_step_finish(ctx, thms, fut):
+    res, bad, raw = fut.result()
+    ctx.checker_cmds.append("coqc Print Assumptions <each theorem of C09/DeepProperties.v>")
+    badthm = set(t for t, _ in bad)
+    axs = set()
+    for t in thms:
+        ctx.obligation("C09.DeepProperties.%s" % t, t not in badthm and "<compile>" not in badthm)
+        for a in (res or {}).get(t, []):
+            axs.add(a)
+    ctx.assumptions_txt.append("Print Assumptions over %d theorems of C09/DeepProperties.v: %s" % (
+        len(thms), ("axioms used: " + ", ".join(sorted(axs))) if axs else "all closed under the global context"))
+    if bad:
+        ctx.violation("theorem of C09/DeepProperties.v depends on an axiom outside the allow-list (or Print Assumptions did not run): %s" % bad[:3],
+                      {"kind": "assumptions", "bad": [list(b) for b in bad][:10]}, found_input=False)
 
 
 def run(ctx, replay=None):
@@ -1214,7 +1242,8 @@ def run(ctx, replay=None):
     if replay is not None and replay.get("entry") == "cert":
         certify(ctx, [dict(replay["case"])], "replay")
         return
-    # 3. exact-rational checks
+    # 3. exact-rational checks (the assumptions of the second theorem file are printed meanwhile)
+    deep = deep_step_start(ctx) if (replay is None and proofs_ok) else None
     differential(ctx, PRE_Q, entries, replay)
     if replay is not None:
         return
@@ -1224,3 +1253,5 @@ def run(ctx, replay=None):
     items += cert_items(ctx)
     certify(ctx, items, "cert")
     ctx.count("wall_s:certificates", round(time.time() - t0, 1))
+    if deep is not None:
+        deep_step_finish(ctx, *deep)
